@@ -169,7 +169,7 @@ Proof.
                        apply noRT_app; [apply noRT_rep; discriminate|].
                        apply noRT_app; [apply noRT_rep; discriminate|].
                        intros [E|[E|[]]]; discriminate. }
-                     destruct (true && has_controls controls && mem w (ctl_list controls));
+                     match goal with |- context [if ?c then _ else _] => destruct c end;
                        cbn [app3 mid emptyW]; rewrite app_nil_l; apply scan_noRT.
                      +++ apply noRT_set_at; [discriminate | exact NM].
                      +++ exact NM.
@@ -269,16 +269,14 @@ Lemma read_step sty nq nc st o st' x L :
 Proof.
   intros Hq W TK IN HS RI.
   destruct (step_grow sty nq nc st o Hq W IN) as [st1 [HS1 [_ HW]]].
-  rewrite HS in HS1. inversion HS1; subst st1. clear HS1.
+  rewrite HS in HS1. inversion HS1; subst. clear HS1.
   intros w Lw. destruct (RI w Lw) as [body [HM HB]].
   rewrite (HW w Lw). destruct (mem w (op_wl nq nc o)) eqn:M.
   - apply mem_true in M.
     pose proof (seg_scan (padw sty) nq nc o w W TK M) as SS.
     unfold op_seg. unfold grow. cbn [mid].
-    exists (body ++ rep (x - length (mid (wire_of st w))) (fillc nq w)
-                 ++ mid (op_emit true (padw sty) nq nc o w emptyW)).
-    split.
-    + rewrite HM. rewrite <- !app_assoc. reflexivity.
+    eexists. split.
+    + rewrite HM at 1. rewrite <- !app_assoc. reflexivity.
     + rewrite scan_app, HB. rewrite scan_app.
       rewrite (scan_noRT (rep _ _)) by (apply noRT_rep; apply fillc_noRT).
       rewrite SS. rewrite app_nil_l. reflexivity.
@@ -313,8 +311,9 @@ Proof.
   destruct (FW w Lw) as [E _]. rewrite E. destruct (RI w Lw) as [b [A B]].
   unfold pad_wire. cbn [mid].
   eexists. split.
-  - rewrite A. rewrite <- app_assoc. reflexivity.
-  - rewrite scan_app, B. rewrite scan_noRT by (apply noRT_rep; apply fillc_noRT). reflexivity.
+  - rewrite A at 1. rewrite <- app_assoc. reflexivity.
+  - rewrite scan_app, B. rewrite scan_noRT by (apply noRT_rep; apply fillc_noRT).
+    rewrite app_nil_r. reflexivity.
 Qed.
 
 (* ------------------------------------------------------------------------------------------ *)
@@ -451,7 +450,7 @@ Lemma step_extends sty nq nc st o st' x :
 Proof.
   intros Hq W IN HS.
   destruct (step_grow sty nq nc st o Hq W IN) as [st1 [HS1 [_ HW]]].
-  rewrite HS in HS1. inversion HS1; subst st1. clear HS1.
+  rewrite HS in HS1. inversion HS1; subst. clear HS1.
   intros w Lw k. rewrite (HW w Lw). destruct (mem w (op_wl nq nc o)).
   - unfold grow. destruct (op_seg true (padw sty) nq nc o w) as [[a b] c].
     destruct k; cbn [row_of top mid bot]; eexists; rewrite <- app_assoc; reflexivity.
